@@ -158,6 +158,16 @@ Theorem C01_searchdef_run_is_sd_run :
     Some (sd_run line omatch ohint d l).
 Proof. exact (searchdef_on_shape _ C01_searchdef_run_shape). Qed.
 
+(* the two tests of SearchDef.run as the source writes them: the hint
+   pre-check is performed whenever there is a hint (whatever the number of
+   patterns) - guard 0 of the reading above - and the pattern loop is left
+   as soon as a pattern matched - guard 2 *)
+Theorem C01_searchdef_run_tests_are_model :
+  (forall has_hint npatterns,
+     searchdef_run_hint_gate has_hint npatterns = has_hint) /\
+  (forall matched, searchdef_run_leaves_loop matched = matched).
+Proof. split; reflexivity. Qed.
+
 (* the local expressions of _flush_results_buffer that are not events:
    limit = MAX, buffer[:limit], range(limit), pop(0), limit -= 1 - as
    extracted from the source they are the ones flush_loop uses *)
@@ -206,6 +216,85 @@ Proof.
            store_whole_index (fun _ => eq_refl) (fun _ => eq_refl)
            (fun _ => eq_refl)).
 Qed.
+
+(* ---- T1: constructors and accessors (Model/TaskSk.v, "constructors") ----
+   which argument feeds which attribute, under which condition, with which
+   compilation - per attribute, so that re-ordering independent assignments
+   or adding log lines / locals is harmless *)
+Theorem C01_searchdef_init_flows :
+  writes_table ["patterns"; "store_result_contents"; "tag"; "field_info";
+                "hint"; "sequence_def"] tk_searchdef_init
+  = w_searchdef_init.
+Proof. vm_compute. reflexivity. Qed.
+
+(* "do this last": the base-class constructor (constraints, id) runs after
+   the attributes are set *)
+Theorem C01_searchdef_init_super_last :
+  last_call tk_searchdef_init = Some "super_init".
+Proof. vm_compute. reflexivity. Qed.
+
+(* the patterns attribute, as the source builds it (extracted function over
+   an abstract re.compile), is the argument's patterns compiled IN ORDER - a
+   single string counting as a one-element list: the model's s_pats *)
+Theorem C01_searchdef_patterns_is_model :
+  forall (P C : Type) (compile : P -> C) is_list single many,
+    searchdef_patterns compile is_list single many =
+    map compile (pattern_arg_list is_list single many).
+Proof.
+  intros P C. exact (patterns_as_model (@searchdef_patterns P C)
+                                        (fun _ _ _ _ => eq_refl)).
+Qed.
+
+(* the hint is compiled (hence consulted by run) iff it is truthy: s_hint *)
+Theorem C01_searchdef_hint_is_model :
+  forall hint_truthy, searchdef_hint_compiled hint_truthy = hint_truthy.
+Proof. reflexivity. Qed.
+
+(* the model's definition record from the constructor's arguments *)
+Theorem C01_sdef_of_args_fields :
+  forall key is_list single many ht hint store tag cons,
+    let d := sdef_of_args key is_list single many ht hint store tag cons in
+    s_pats d = pattern_arg_list is_list single many /\
+    s_hint d = (if searchdef_hint_compiled ht then Some hint else None) /\
+    s_store d = store /\ s_tag d = tag /\ s_cons d = cons.
+Proof. intros. repeat split. Qed.
+
+Theorem C01_link_to_sequence_flows :
+  writes_table ["sequence_def"; "tag"] tk_searchdef_link_to_sequence
+  = w_link_to_sequence.
+Proof. vm_compute. reflexivity. Qed.
+
+(* SearchTask.__init__: info / managers as given, results_buffer = [] (the
+   model's initial mkT [] [] false), decode policy passed on only if given *)
+Theorem C01_searchtask_init_flows :
+  writes_table ["proc"; "info"; "stats"; "constraints_manager";
+                "results_manager"; "decode_kwargs"; "results_buffer"]
+               tk_searchtask_init
+  = w_searchtask_init.
+Proof. vm_compute. reflexivity. Qed.
+
+Theorem C01_searchtask_init_buffer_empty :
+  task_initial_buffer_len
+  = Z.of_nat (length (t_buf (@mkT result [] [] false))) /\
+  (forall b, task_passes_decode_errors b = b).
+Proof. split; reflexivity. Qed.
+
+(* SearchTaskResultsManager: the three objects as given; both a queue and a
+   collection is refused (the model uses the collection: single process);
+   each property returns its own attribute *)
+Theorem C01_resultsmanager_init_flows :
+  writes_table ["results_store"; "results_queue"; "results_collection"]
+               tk_resultsmanager_init
+  = w_resultsmanager_init /\
+  (forall q c, resultsmanager_rejects q c = q && c).
+Proof. split; [vm_compute; reflexivity|reflexivity]. Qed.
+
+Theorem C01_resultsmanager_properties :
+  tk_resultsmanager_results_store = [SEv (Rd "results_store"); SExit] /\
+  tk_resultsmanager_results_queue = [SEv (Rd "results_queue"); SExit] /\
+  tk_resultsmanager_results_collection
+  = [SEv (Rd "results_collection"); SExit].
+Proof. vm_compute. repeat split. Qed.
 
 (* ---- non-vacuity ---- *)
 (* patterns 1,2,3; hint 7; values are ids.  d1 = [p1 (no groups); p2 (2
@@ -256,3 +345,7 @@ Print Assumptions C01_simple_search_exact_current_constants.
 Print Assumptions C01_searchdef_run_is_sd_run.
 Print Assumptions C01_flush_results_buffer_is_flush_loop.
 Print Assumptions C01_store_result_indices.
+Print Assumptions C01_searchdef_init_flows.
+Print Assumptions C01_searchdef_patterns_is_model.
+Print Assumptions C01_searchtask_init_flows.
+Print Assumptions C01_resultsmanager_init_flows.
